@@ -260,7 +260,7 @@ func runCheck(o checkOpts) int {
 		// obligations
 		frameOnly := false
 		if prop != "all" && !contractMentions(c, prop) {
-			if !framePropSet[prop] || c.Trusted != "" {
+			if !(framePropSet[prop] || w.db.isFrameProp(prop)) || c.Trusted != "" {
 				continue
 			}
 			frameOnly = true
@@ -280,6 +280,29 @@ func runCheck(o checkOpts) int {
 			continue
 		}
 		funcsUnder = append(funcsUnder, res.Name)
+		// which properties an obligation counts for (reported with -p all)
+		hp := map[string]bool{}
+		for _, ob := range res.Obligations {
+			if !supportKinds[ob.Kind] {
+				for _, q := range ob.Props {
+					hp[q] = true
+				}
+			}
+		}
+		for _, ob := range res.Obligations {
+			switch {
+			case supportKinds[ob.Kind] && !ob.Explicit:
+				ob.CountsFor = sortedKeys(hp)
+			case supportKinds[ob.Kind]:
+				for _, q := range ob.Props {
+					if hp[q] {
+						ob.CountsFor = append(ob.CountsFor, q)
+					}
+				}
+			default:
+				ob.CountsFor = ob.Props
+			}
+		}
 		for _, ob := range res.Obligations {
 			if frameOnly {
 				if ob.Kind == "frame" && contains(ob.Props, prop) {
@@ -325,14 +348,15 @@ func runCheck(o checkOpts) int {
 		return 2
 	}
 	defer os.RemoveAll(work)
-	rc := runConfig{timeoutS: 10, solvers: []string{"z3-new", "z3"}, workdir: work, seed: o.seed}
+	rc := runConfig{timeoutS: 10, solvers: []string{"z3-new", "z3", "cvc5"}, late: []string{"cvc5"}, lateAfterMS: 1500, workdir: work, seed: o.seed}
 	if o.tier == "thorough" {
 		rc.timeoutS = 60
 		rc.solvers = []string{"z3-new", "z3", "cvc5"}
+		rc.late = nil
 	}
 	solveStart := time.Now()
 	par := 16
-	if len(rc.solvers) > 2 {
+	if len(rc.solvers) > 2 && len(rc.late) == 0 {
 		par = 6
 	} else {
 		par = 8
@@ -446,7 +470,7 @@ func runCheck(o checkOpts) int {
 		if !confirmed {
 			suffix = " no-failing-input-found"
 		}
-		fmt.Printf("FAILED-OBLIGATION %s verdict=%s solver=%s pos=%s text=%q\n", ob.Name, ob.Verdict, ob.Solver, ob.Pos, ob.Text)
+		fmt.Printf("FAILED-OBLIGATION %s verdict=%s solver=%s props=%s pos=%s text=%q\n", ob.Name, ob.Verdict, ob.Solver, strings.Join(ob.CountsFor, ","), ob.Pos, ob.Text)
 		fmt.Printf("VIOLATION property=%s replay=%s%s\n", prop, path, suffix)
 	}
 	if o.verbose {
@@ -716,4 +740,13 @@ func debugShuffle(n int, swap func(i, j int)) {
 	}
 	v, _ := strconv.ParseInt(seed, 10, 64)
 	rand.New(rand.NewSource(v)).Shuffle(n, swap)
+}
+
+func (db *ContractDB) isFrameProp(p string) bool {
+	for _, ps := range db.frameProps {
+		if contains(ps, p) {
+			return true
+		}
+	}
+	return false
 }
